@@ -1554,6 +1554,14 @@ class Interp:
         if key in self.attrs:
             return self.attrs[key]
         if base.op == "ite":
+            # a branch the path condition has already excluded (`x = None if
+            # c else obj` ... `if x is not None: x.attr`) is not read
+            lits = set(live.args) if live.op == "and" else {live}
+            c_ = base.args[0]
+            if c_ in lits:
+                return self.get_attr(base.args[1], name, frame, live, node)
+            if tm.mk_not(c_) in lits:
+                return self.get_attr(base.args[2], name, frame, live, node)
             return tm.ite(base.args[0],
                           self.get_attr(base.args[1], name, frame, live, node),
                           self.get_attr(base.args[2], name, frame, live, node))
@@ -1903,6 +1911,22 @@ class Interp:
                     ru = self.unname(ru.args[1][0])
                 else:
                     break
+        if op in ("Is", "IsNot") and tm.is_const(ru, None) and \
+                lu.op == "ite" and not getattr(self, "_in_ite_none", False):
+            # (None if c else <object>) is None  ==  c
+            self._in_ite_none = True
+            try:
+                ra = self.compare(op, lu.args[1], r)
+                rb = self.compare(op, lu.args[2], r)
+            finally:
+                self._in_ite_none = False
+            if tm.is_const(ra) and tm.is_const(rb) and \
+                    isinstance(tm.const_val(ra), bool) and \
+                    isinstance(tm.const_val(rb), bool):
+                va, vb = tm.const_val(ra), tm.const_val(rb)
+                if va == vb:
+                    return const(va)
+                return lu.args[0] if va else tm.mk_not(lu.args[0])
         if op in ("Eq", "Is", "NotEq", "IsNot"):
             eq = None
             if lu.op in ("const", "enum") and ru.op in ("const", "enum"):
@@ -2228,6 +2252,10 @@ class Interp:
                     kv[0] if fn.args[1] == "keys" else kv[1]
                     if fn.args[1] == "values" else T("tuple", kv[0], kv[1])
                     for kv in d_.args])
+        if fn.op == "named" and fn.args[1].op == "call" and \
+                tm.callee_name(fn.args[1]) in ("operator.attrgetter",
+                                               "operator.itemgetter"):
+            fn = fn.args[1]       # a getter kept in a module constant
         if fn.op == "call" and tm.callee_name(fn) in (
                 "operator.attrgetter", "operator.itemgetter") and \
                 len(fn.args[1]) == 1 and not fn.args[2] and \
@@ -2504,6 +2532,27 @@ class Interp:
             self._store_attr(args[0], tm.const_val(args[1]), T("deleted"),
                              live)
             return NONE
+        if fn.op == "attr" and fn.args[1] == "pop" and \
+                1 <= len(args) <= 2 and tm.is_const(args[0]) and isinstance(
+                    tm.const_val(args[0]), str):
+            # vars(obj).pop("name"[, default]) / obj.__dict__.pop(...): the
+            # instance attribute is removed (if it is there)
+            du = self.unname(fn.args[0])
+            owner = None
+            if du.op == "attr" and du.args[1] == "__dict__":
+                owner = du.args[0]
+            elif tm.callee_name(du) == "builtins.vars" and \
+                    len(du.args[1]) == 1:
+                owner = du.args[1][0]
+            if owner is not None:
+                an = tm.const_val(args[0])
+                if self.attr_absent is not None and \
+                        self.attr_absent(owner, an) is True:
+                    return args[1] if len(args) == 2 else NONE
+                old_v = self.get_attr(owner, an, frame, live, node)
+                self.emit("delattr", node, live, frame, base=owner, name=an)
+                self._store_attr(owner, an, T("deleted"), live)
+                return old_v
         if fn.op == "attr" and fn.args[1] == "get" and 1 <= len(args) <= 2:
             du = self.unname(fn.args[0])
             if du.op == "dict" and args[0].op in ("const", "enum") and all(
